@@ -127,7 +127,7 @@ def contract_index():
         if p.returncode != 0:
             continue
         for it in json.load(open(os.path.join(d, name + ".map.json")))["items"]:
-            idx.setdefault((it["file"], it["selector"]), []).append((name, it["mode"], it.get("contract")))
+            idx.setdefault((it["file"], it["selector"]), []).append((name, it["mode"], it.get("contract"), it.get("contract_req"), it.get("contract_ens_lines") or []))
     return idx
 
 
@@ -491,8 +491,11 @@ def main(argv):
             others = [o for o in cidx.get((it["file"], it["selector"]), []) if o[1] == "verify"]
             same = [o[0] for o in others if o[2] == it.get("contract")]
             label = "%s %s" % (it["file"], it["selector"])
+            weaker = [o[0] for o in others if len(o) > 4 and o[3] == it.get("contract_req") and set(it.get("contract_ens_lines") or []) <= set(o[4])]
             if same:
                 stubs_r7a.append("%s (verified with the same contract in slice %s)" % (label, same[0]))
+            elif weaker:
+                stubs_r7a.append("%s (same requires, a subset of the ensures lines of the contract verified in slice %s: implied by it)" % (label, weaker[0]))
             elif others:
                 stubs_r7b.append("%s (verified in slice %s under a DIFFERENT contract text; here assumed)" % (label, others[0][0]))
             else:
